@@ -69,7 +69,8 @@ class LoopSpec:
               havocked automatically)
     """
 
-    def __init__(self, inv, variant=None, havoc=(), unroll_first=0, frame=None):
+    def __init__(self, inv, variant=None, havoc=(), unroll_first=0, frame=None, locals=None):
+        self.locals = dict(locals or {})   # name -> schema node: shape of a havocked local that is not a plain int/bool (e.g. None-or-int)
         self.inv = inv
         self.variant = variant
         self.havoc = list(havoc)
